@@ -23,6 +23,9 @@ fn u16_to_byte(line: &str, col: usize) -> Option<usize> {
 fn check(css: &str) -> Option<(String, String)> {
     for k in 0..2 {
         let opts = if k == 0 { StyleSheetOptions::default() } else { StyleSheetOptions { class_prefix: Some("p".into()), rpx_ratio: 750., ..Default::default() } };
+        let mut text = String::new();
+        StyleSheetTransformer::from_css("p.wxss", css, opts.clone()).output().write_str(&mut text).unwrap();
+        let text16: Vec<u16> = text.encode_utf16().collect();
         let t = StyleSheetTransformer::from_css("p.wxss", css, opts);
         let out = t.output();
         let sm = out.extract_source_map();
@@ -42,6 +45,18 @@ fn check(css: &str) -> Option<(String, String)> {
             let rest = &line[b..];
             if rest.starts_with("/*") {
                 return Some((format!("entry at generated column {} points at source ({}, {}) = {:?}", tk.get_dst_col(), tk.get_src_line(), tk.get_src_col(), rest.chars().take(8).collect::<String>()), "the start of a token, not a comment".into()));
+            }
+            // a copied token maps to the start of its input token: never into whitespace (except the single space written for a
+            // whitespace run), and an at-keyword / hash / opening bracket in the output maps to the same character in the source
+            let out_ch = text16.get(tk.get_dst_col() as usize).and_then(|u| char::from_u32(*u as u32));
+            let src_ch = rest.chars().next();
+            if let (Some(o), Some(sc)) = (out_ch, src_ch) {
+                if sc.is_whitespace() && o != ' ' {
+                    return Some((format!("entry at generated column {} (output {:?}) points into whitespace at source ({}, {})", tk.get_dst_col(), o, tk.get_src_line(), tk.get_src_col()), "the start of the input token".into()));
+                }
+                if matches!(o, '@' | '#' | '{' | '[' | '(' | ':' | ',' | ';') && sc != o {
+                    return Some((format!("entry at generated column {} is {:?} in the output but the source at ({}, {}) reads {:?}", tk.get_dst_col(), o, tk.get_src_line(), tk.get_src_col(), rest.chars().take(12).collect::<String>()), "the same punctuation / at-keyword in the source".into()));
+                }
             }
             // a rewritten token (prefixed class, converted rpx length) carries the ORIGINAL spelling as its name: the
             // source text at the mapped position starts with it
